@@ -33,6 +33,7 @@ RULE = (
     "(with reject_symlinks: whose realpath is below the root's realpath); every open() during the request that lands in the sandbox obeys "
     "the same rule; a failure is TemplateNotFoundError. Non-trivial = name contains a separator, '..', an absolute prefix, a symlink or a "
     "special character; distinct by (config, name)."
+    " Rounds 5-6 added enumerated families: links into sibling directories whose names extend a root's name; a served file replaced by a link leaving the root, same loader asked again."
 )
 REQUIRED = [
     ("liquid/builtin/loaders/file_system_loader.py", "FileSystemLoader.resolve_path"),
